@@ -9,6 +9,7 @@ import (
 	"encoding/hex"
 	"fmt"
 	"math/rand/v2"
+	"strings"
 	"testing"
 
 	"github.com/google/gce-tcb-verifier/sev"
@@ -24,7 +25,9 @@ func init() {
 		ID: "C04", Level: "exploration",
 		Rule: "case = one firmware image written byte by byte (size 4 KiB..4 MiB, random filler, GUIDed table with reset-block and metadata-offset entries in either order between 0..3 foreign entries, metadata header at the start / right before the table / anywhere, reset address from a boundary table) x 2-3 (vCPU count from {1,2,3, the 15 GCE counts, 255, 1000}, product Milan|Genoa) through sev.LaunchDigest (first combination twice) and, for a share of the images, sev.UnsignedSnp (one count or all 15). " +
 			"Section lists: (a) directed enumeration, independent of the seed: malformed operator x variant x boundary position x kind pair x list order (overlap shapes at 0x1000, 0x801000, 0x7ffff000, 0x80000000, 0xff003000, 0xffffe000 and the last page below 4 GiB incl. ranges that end at or beyond 2^32; misaligned address; empty / non-page-multiple length; duplicate CPUID / secrets; missing kind; unknown kind) with well-formed controls (adjacent, gap, last page, address 0, range crossing 4 GiB); (b) random well-formed lists of 3..12 disjoint ranges anywhere in 32 bits; (c) a random well-formed list with one perturbation. Also the repository's 2 MiB example with all 15 counts on both products. (d) concurrent histories: 4|8|16 goroutines released on a barrier, each running 3-6 rounds of pre-drawn calls (both entry points, both products, all vCPU classes) on its own well-formed images, on two images shared by all goroutines and on shared malformed images; every call was also made alone beforehand. " +
-			"Oracle: the image is re-parsed by the model (must equal the generator's spec); accepted (err==nil) => the parsed section list is in none of C04's malformed classes (64-bit arithmetic) and the digest equals the model's PAGE_INFO/SHA-384 chain; both calls agree; image and options unchanged; a concurrent call returns the model's digest, refuses malformed images and equals the same call made alone. Rejections are counted, never judged. " +
+			"(e) second directed enumeration, independent of the seed: one range of 9..65537 pages whose page count is not a power of two (and of 2^16, 2^18+1, 2^19, 2^19+1, 2^20-1 pages), low or ending exactly at 4 GiB, first or last in the list, per kind; lists of 13..1000 pairwise-disjoint ranges in non-monotonic address order with the mandatory kinds on the first or the last three entries; lists of 33..300 ranges with exactly one defect that involves only the last entries (identical / second-page overlap of the last two, last with fifth, duplicate CPUID / secrets, unknown kind, zero length, bad length, misaligned address). " +
+			"(f) sequences: one caller makes 28-44 calls (both entry points, vCPU counts 1..300 and the table, both products) on sibling images (base; one filler byte / the reset address / the order of two ranges / the place of one range changed; one defect added; unrelated images of the same and of another size; ranges stretched to 1..300 pages) that are copied into ONE arena refilled in place or passed in buffers of their own, with ONE LaunchOptions and ONE SnpEndorsementRequest value kept for the whole history (only the fields that change are written) or fresh ones, refused calls (vCPU count < 1, malformed sibling) before good ones; results are kept as returned and compared again after every later call, a quarter of them is overwritten by the caller and the identical call made again. " +
+			"Oracle: the image is re-parsed by the model (must equal the generator's spec); accepted (err==nil) => the parsed section list is in none of C04's malformed classes (64-bit arithmetic) and the digest equals the model's PAGE_INFO/SHA-384 chain; both calls agree; image and options unchanged; a concurrent call returns the model's digest, refuses malformed images and equals the same call made alone; in a sequence every call is judged by the same rules against what the caller last wrote into its options / request, and a result the caller kept still reads as returned after every later call. Rejections are counted, never judged. " +
 			"non-trivial cell = (entry point, generator class, vCPU class, product, outcome) in which the tool accepted (digest compared) or the image was model-malformed (acceptance decided)",
 		Assumptions: []string{
 			"mandatory kinds are unmeasured (1), secrets (2) and CPUID (3), as the repository's own error texts name them; SVSM-CAA (4) is optional and measured as ZERO pages",
@@ -129,6 +132,9 @@ type wl struct {
 	apSplit         int // accepted with >1 vCPUs and a reset address whose halves differ
 
 	concCalls, concEqual, concRefused int
+
+	seqEqual, seqSameSlot, seqAfterFailure, seqRepeat, seqSharedOpts, seqSharedReq, seqOddRange int
+	longRangeEqual, manyRangesEqual, deepDecided                                                int
 }
 
 func run(c *core.Ctx) {
@@ -139,7 +145,12 @@ func run(c *core.Ctx) {
 	nWf := c.N(900, 14000)
 	nMal := c.N(400, 5400)
 	nConc := c.N(8, 64)
-	n := nDir + nEx + nWf + nMal + nConc
+	// families added later are appended, so that the cases above keep their numbers and PRNG streams
+	dir2 := buildDirected2()
+	nDir2 := len(dir2)
+	nSeq := c.N(64, 640)
+	first2 := nDir + nEx + nWf + nMal + nConc
+	n := first2 + nDir2 + nSeq
 	for i := 0; i < n; i++ {
 		if !c.Mine(i) {
 			continue
@@ -168,6 +179,25 @@ func run(c *core.Ctx) {
 			}
 			w.image(i, r, fmt.Sprintf("wellformed#%d %s", i, layoutClass(secs)), cls, sp, 3, i%4 == 0)
 			c.Count("cases/wellformed", 1)
+		case i >= first2+nDir2:
+			w.sequence(i, r)
+		case i >= first2:
+			d := dir2[i-first2]
+			pages := pickPages(r, true)
+			if r.IntN(3) == 0 {
+				pages = 8 + r.IntN(26)
+			}
+			if pages < d.minPages {
+				pages = d.minPages
+			}
+			sp := &spec{Size: 4096 * pages, Entries: randomTable(r), MetaPos: []string{"start", "before-table", "random", "page-straddle"}[r.IntN(4)],
+				Version: 1, Reset: pickReset(r), Secs: d.secs}
+			ncombos := 2
+			if d.huge {
+				ncombos = 1
+			}
+			w.image(i, r, "directed2:"+d.name, "directed2:"+d.class, sp, ncombos, !d.huge && (i-first2)%5 == 0)
+			c.Count("cases/directed2", 1)
 		case i >= nDir+nEx+nWf+nMal:
 			w.concurrent(i, r)
 		default:
@@ -199,6 +229,15 @@ func run(c *core.Ctx) {
 	}
 	c.Floor("accepted-with->1-vcpus-and-asymmetric-reset-address", w.apSplit > 0)
 	c.Floor("concurrent-family-ran(accepted-equal-and-refusals-observed)", w.concCalls > 0 && w.concEqual > 0 && w.concRefused > 0)
+	c.Floor("directed2:accepted-equal-with-a-range-of->=8-pages-not-a-power-of-two", w.longRangeEqual > 0)
+	c.Floor("directed2:accepted-equal-with->=32-ranges", w.manyRangesEqual > 0)
+	c.Floor("directed2:defect-in-the-tail-of-a-long-list-decided", w.deepDecided > 0)
+	c.Floor("sequence:accepted-equal-on-an-arena-refilled-in-place", w.seqSameSlot > 0)
+	c.Floor("sequence:accepted-equal-with-kept-options(same-count>1,other-reset-address)", w.seqSharedOpts > 0)
+	c.Floor("sequence:accepted-equal-with-kept-request(other-image)", w.seqSharedReq > 0)
+	c.Floor("sequence:accepted-equal-right-after-a-refused-call", w.seqAfterFailure > 0)
+	c.Floor("sequence:accepted-equal-on-the-same-call-after-the-caller-overwrote-its-result", w.seqRepeat > 0)
+	c.Floor("sequence:accepted-equal-with-a-range-of->=8-pages-not-a-power-of-two", w.seqOddRange > 0)
 	c.Floor("accepted-on-genoa", w.genoa > 0)
 	c.Floor("accepted-rom-of->1-page", w.multiPageRom > 0)
 }
@@ -388,6 +427,9 @@ func (w *wl) judge(i int, entry, gen, gclass string, sp *spec, classes []string,
 			for _, cl := range classes {
 				w.classDecided[cl]++
 			}
+			if strings.HasPrefix(gclass, "directed2:deep/") {
+				w.deepDecided++
+			}
 			c.Count("rejected-malformed/"+classes[0]+"/"+entry, 1)
 			c.Cell("%s|%s|%s|%s|rejected:%s", entry, gclass, vc, co.pname, classes[0])
 		}
@@ -396,6 +438,9 @@ func (w *wl) judge(i int, entry, gen, gclass string, sp *spec, classes []string,
 	if len(classes) > 0 {
 		for _, cl := range classes {
 			w.classDecided[cl]++
+		}
+		if strings.HasPrefix(gclass, "directed2:deep/") {
+			w.deepDecided++
 		}
 		c.Violate(core.Violation{Kind: "oracle", Entry: entry, Site: "accepted-malformed:" + classes[0], Gen: gen, Case: i,
 			Detail:  fmt.Sprintf("digest %x returned for an image whose SNP metadata is malformed (%v): sections %v (vcpus=%d %s)", got, classes, sp.Secs, co.vcpus, co.pname),
@@ -417,6 +462,20 @@ func (w *wl) judge(i int, entry, gen, gclass string, sp *spec, classes []string,
 	c.Cell("%s|%s|%s|%s|accepted-equal", entry, gclass, vc, co.pname)
 	c.Max("rom-pages-accepted", int64(sp.Size/4096))
 	c.Max("sections-accepted", int64(len(sp.Secs)))
+	if strings.HasPrefix(gclass, "directed2:") {
+		if len(sp.Secs) >= 32 {
+			w.manyRangesEqual++
+			c.Count("directed2/accepted-equal/>=32-ranges", 1)
+		}
+		for _, s := range sp.Secs {
+			c.Max("pages-in-one-range-accepted", int64(s.Len/pg))
+			if p := s.Len / pg; p >= 8 && p&(p-1) != 0 {
+				w.longRangeEqual++
+				c.Count("directed2/accepted-equal/range-of->=8-pages-not-a-power-of-two", 1)
+				break
+			}
+		}
+	}
 	if co.vcpus > 1 {
 		w.multiVcpu++
 		if sp.Reset&0xffff != 0 && sp.Reset>>16 != 0 && sp.Reset&0xffff != sp.Reset>>16 {
@@ -449,26 +508,40 @@ func (w *wl) unsigned(i int, gen, gclass string, sp *spec, img, before []byte, c
 		c.Oracle(i, "sev.UnsignedSnp", "image-bytes-changed", gen, "the firmware slice differs after the call")
 		copy(img, before)
 	}
+	w.judgeTable(i, gen, gclass, sp, classes, co, ms, err, want)
+}
+
+// judgeTable judges the measurement table (or the error) of one sev.UnsignedSnp call made for
+// co.vcpus launch VMSAs (0: all GCE counts) on co's product.
+func (w *wl) judgeTable(i int, gen, gclass string, sp *spec, classes []string, co combo, ms map[uint32][]byte, err error, want func(combo) []byte) (acceptedEqual bool) {
+	c := w.c
 	counts := []int{co.vcpus}
 	if co.vcpus == 0 {
 		counts = gceCounts
 	}
 	if err != nil {
 		w.judge(i, "sev.UnsignedSnp", gen, gclass, sp, classes, combo{counts[0], co.prod, co.pname}, nil, err, want)
-		return
+		return false
 	}
+	acceptedEqual = len(classes) == 0
 	if len(ms) != len(counts) {
 		c.Oracle(i, "sev.UnsignedSnp", "measurement-table-keys", gen, "requested launch_vmsas=%d, got %d measurements (want %d)", co.vcpus, len(ms), len(counts))
+		acceptedEqual = false
 	}
 	for _, n := range counts {
 		got, ok := ms[uint32(n)]
 		if !ok {
 			c.Oracle(i, "sev.UnsignedSnp", "measurement-table-keys", gen, "no measurement for %d VMSAs (requested launch_vmsas=%d)", n, co.vcpus)
+			acceptedEqual = false
 			continue
 		}
 		w.judge(i, "sev.UnsignedSnp", gen, gclass, sp, classes, combo{n, co.prod, co.pname}, got, nil, want)
+		if len(classes) == 0 && !bytes.Equal(got, want(combo{n, co.prod, co.pname})) {
+			acceptedEqual = false
+		}
 	}
 	c.Eval(len(counts) - 1) // LaunchDigest runs once per count inside
+	return acceptedEqual
 }
 
 // example runs the repository's own 2 MiB example image with all 15 GCE counts (UnsignedSnp) and a
